@@ -204,8 +204,8 @@ def run(tier):
         return ck.finish()
     m = Model("exec")
     t0 = time.time()
-    n_schemas, n_docs = (45, 70) if tier == "quick" else (400, 250)
-    budget = 75 if tier == "quick" else 900
+    n_schemas, n_docs = (40, 70) if tier == "quick" else (400, 250)
+    budget = 60 if tier == "quick" else 900
     for c in common.load_corpus("C02"):
         run_corpus_case(ck, m, c)
     for i in range(n_schemas):
